@@ -192,6 +192,7 @@ def check(ctx):
     c17.check_B4(ctx, facts)
     c17.check_B5(ctx, facts)
     c17.check_B8(ctx, facts, rule='C07.R4')
+    c17.check_B12(ctx, facts, rule='C07.R6')      # what iter_metadata lists does not rest on a numeric iteration order of little-endian keys
     c17.check_B7(ctx, facts)        # the keyspace list a restart rebuilds from is the persistent registry, which only grows
     for o in ctx.obs[n0:]:
         o.rule = 'C07.R4'
